@@ -97,6 +97,9 @@ func (e *Env) eval(x *SExpr) Value {
 		base := e.eval(x.Args[0])
 		s := e.ex.specs.ghostSort(x.Name)
 		t := Select(e.cur.heapArr("#"+x.Name, s), identOf(base))
+		if x.Name == "blen" {
+			e.live.assume(And(Le(Int(0), t), Lt(t, IntB(pow2[32]))))
+		}
 		if s == SBool {
 			return specBool(t)
 		}
@@ -141,8 +144,20 @@ func (e *Env) eval(x *SExpr) Value {
 		c := e.boolTerm(x.Args[0])
 		a := e.eval(x.Args[1])
 		b := e.eval(x.Args[2])
-		if len(a.L) != len(b.L) {
+		if len(a.L) != len(b.L) && !a.isNilLit() && !b.isNilLit() {
 			sfail("cond branches differ in shape: %s", x)
+		}
+		// a nil literal adapts to the shape of the other branch
+		if a.isNilLit() && !b.isNilLit() {
+			a = Value{T: b.T, L: make([]*Term, len(b.L))}
+			for i := range a.L {
+				a.L[i] = Int(0)
+			}
+		} else if b.isNilLit() && !a.isNilLit() {
+			b = Value{T: a.T, L: make([]*Term, len(a.L))}
+			for i := range b.L {
+				b.L[i] = Int(0)
+			}
 		}
 		r := Value{T: a.T, L: make([]*Term, len(a.L))}
 		for i := range a.L {
@@ -505,9 +520,9 @@ func (e *Env) evalCall(x *SExpr) Value {
 	case "stream":
 		need(2)
 		return specInt(UF("stream", SInt, identOf(arg(0)), e.intTerm(x.Args[1])))
-	case "wrap8u", "wrap16u", "wrap32u", "wrap16", "wrap32", "wrap64":
+	case "wrap8u", "wrap16u", "wrap32u", "wrap64u", "wrap16", "wrap32", "wrap64":
 		need(1)
-		bits := map[string]int{"wrap8u": 8, "wrap16u": 16, "wrap32u": 32, "wrap16": 16, "wrap32": 32, "wrap64": 64}[name]
+		bits := map[string]int{"wrap8u": 8, "wrap16u": 16, "wrap32u": 32, "wrap64u": 64, "wrap16": 16, "wrap32": 32, "wrap64": 64}[name]
 		return specInt(Wrap(e.intTerm(x.Args[0]), bits, !strings.HasSuffix(name, "u")))
 	case "ite":
 		need(3)
@@ -529,11 +544,38 @@ func (e *Env) evalCall(x *SExpr) Value {
 		m := arg(0)
 		k := arg(1)
 		return specBool(Select(Select(e.cur.heapArrS("mapdom:"+typeKey(m.T), SArr2B), m.L[0]), k.L[0]))
-	case "ctxval": // ctxval(ctx, key) -> interface value
+	case "ctxval": // ctxval(ctx, key) -> interface value; key: interface value or a ctxKey number
 		need(2)
 		c := arg(0)
-		k := e.intTerm(x.Args[1])
-		return Value{T: anyType, L: []*Term{UF("ctxval.tag", SInt, c.L[1], k), UF("ctxval.val", SInt, c.L[1], k)}}
+		kv := arg(1)
+		var kt, kvv *Term
+		if len(kv.L) == 2 {
+			kt, kvv = kv.L[0], kv.L[1]
+		} else {
+			kt, kvv = Int(int64(e.ex.tagByName("wire.ctxKey"))), kv.L[0]
+		}
+		return Value{T: anyType, L: []*Term{UF("ctxval.tag", SInt, c.L[1], kt, kvv), UF("ctxval.val", SInt, c.L[1], kt, kvv)}}
+	case "box": // the interface value holding x
+		need(1)
+		v := arg(0)
+		if v.T == nil {
+			sfail("box of untyped value")
+		}
+		if _, isIface := v.T.Underlying().(*types.Interface); isIface {
+			return Value{T: anyType, L: v.L}
+		}
+		return e.ex.makeInterface(e.live, v, v.T, anyType)
+	case "ctxerr": // the (stable) cancellation error of a context
+		need(1)
+		c := arg(0)
+		return Value{T: errorType, L: []*Term{UF("ctxerr.tag", SInt, c.L[1]), UF("ctxerr.val", SInt, c.L[1])}}
+	case "implements":
+		need(2)
+		v := arg(0)
+		return specBool(UF("implements."+x.Args[1].Str, SBool, v.L[0]))
+	case "ctxkey": // interface value of the package's context key number k
+		need(1)
+		return Value{T: anyType, L: []*Term{Int(int64(e.ex.tagByName("wire.ctxKey"))), e.intTerm(x.Args[0])}}
 	}
 	sf, ok := e.ex.specs.Funcs[name]
 	if !ok {
